@@ -23,6 +23,8 @@ inductive TStep where
   | uintLax (bits : Nat)    -- `strconv.ParseUint(l.token, 10, bits)` where the token's error flag is not looked at (CSYNC)
   | endStrSplit (n : Nat)   -- `strings.Join(splitN(rr.F, n), " ")`: the field cut into pieces of n octets with blanks between them (SMIMEA)
   | mnem (tbl bits : Nat)   -- a code written as the mnemonic of a table (0: `CertTypeToString`, else `AlgorithmToString`), else as a number (CERT)
+  | saltNE                  -- the salt of NSEC3: as `salt`, behind `if l.token == "" || l.err { return … }`
+  | tokNE                   -- the token as it is, which must not be empty (`if l.token == "" || l.err { return … }; rr.F = l.token`)
   | typeList                -- the rest of the entry as type mnemonics (NSEC, CSYNC): `" " + Type(t).String()` per type / the loop over `StringToType`, `typeToInt`
   | ipv4                    -- an IPv4 address: `rr.A.String()` / `net.ParseIP(l.token)` with no colon in the token (A)
   | txtFirst                -- one string field: `sprintTxt([]string{rr.F})` / the first chunk of `endingToTxtSlice` (UINFO)
